@@ -250,6 +250,143 @@ def check_failing_exports(kind):
     return None
 
 
+PARENT_KINDS = ("same-type", "equal-type", "extra-signal", "extra-sub-bundle", "missing-signal", "wider-member",
+                "anon-exact", "anon-extra", "anon-missing", "scalar-for-bundle", "bundle-for-scalar", "sub-bundle-ref",
+                "sub-bundle-ref-of-bigger", "noconn", "port-ref", "missing-port", "wrong-width-scalar")
+CHILD_HISTORIES = ("elaborate", "to_proto", "netlist", "below-other-parent", "in-list", "twice")
+
+
+def check_new_parent(case):
+    """a NEW parent (valid or not) over a child with a bundle-valued port: what exporting it gives - a package or an
+    exception - is the same whether the child went through elaborate / to_proto / netlist before (alone, in a list, below
+    another parent) or never"""
+    import hdl21 as h
+    kind, hist = case
+
+    def build():
+        @h.bundle
+        class Sub:
+            p = h.Signal()
+
+        @h.bundle
+        class Bt:
+            x = h.Signal()
+            y = h.Signal(width=2)
+            s = Sub()
+        E = h.ExternalModule(name="NPE", port_list=[h.Inout(name="a", width=2), h.Inout(name="z")], desc="", domain="np")
+        Child = h.Module(name="NPChild")
+        Child.b = Bt(port=True)
+        Child.q = h.Port()
+        Child.e = E()(a=Child.b.y, z=Child.b.x)
+        Child.e2 = E()(a=Child.b.y, z=Child.b.s.p)
+        Child.e3 = E()(a=Child.b.y, z=Child.q)
+        Sc = h.Module(name="NPSubChild")
+        Sc.s = Sub(port=True)
+        Sc.e = E()(a=h.Concat(Sc.s.p, Sc.s.p), z=Sc.s.p)
+
+        def parent():
+            P = h.Module(name="NPParent")
+            P.t = h.Signal()
+            P.w2 = h.Signal(width=2)
+            if kind == "same-type":
+                P.bb = Bt()
+            elif kind == "equal-type":
+                B2 = h.Bundle(name="Bt")
+                B2.add(h.Signal(name="x"))
+                B2.add(h.Signal(name="y", width=2))
+                B2.add(Sub(), name="s")
+                P.bb = B2()
+            elif kind in ("extra-signal", "extra-sub-bundle", "missing-signal", "wider-member", "sub-bundle-ref-of-bigger"):
+                B2 = h.Bundle(name="Bigger")
+                if kind != "missing-signal":
+                    B2.add(h.Signal(name="x"))
+                B2.add(h.Signal(name="y", width=3 if kind == "wider-member" else 2))
+                if kind == "sub-bundle-ref-of-bigger":
+                    S2 = h.Bundle(name="Sub2")
+                    S2.add(h.Signal(name="p"))
+                    S2.add(h.Signal(name="extra"))
+                    B2.add(S2(), name="s")
+                else:
+                    B2.add(Sub(), name="s")
+                if kind == "extra-signal":
+                    B2.add(h.Signal(name="extra"))
+                if kind == "extra-sub-bundle":
+                    B2.add(Sub(), name="s2")
+                P.bb = B2()
+            if kind in ("anon-exact", "anon-extra", "anon-missing"):
+                P.sb = Sub()
+                members = dict(x=P.t, y=P.w2, s=P.sb)
+                if kind == "anon-extra":
+                    members["extra"] = P.t
+                if kind == "anon-missing":
+                    del members["x"]
+                P.c = Child(b=h.AnonymousBundle(**members), q=P.t)
+            elif kind == "scalar-for-bundle":
+                P.c = Child(b=P.t, q=P.t)
+            elif kind == "bundle-for-scalar":
+                P.bb = Bt()
+                P.c = Child(b=P.bb, q=P.bb)
+            elif kind in ("sub-bundle-ref", "sub-bundle-ref-of-bigger"):
+                if kind == "sub-bundle-ref":
+                    P.bb = Bt()
+                if kind == "sub-bundle-ref":
+                    P.c = Child(b=P.bb, q=P.t)
+                P.sc = Sc(s=P.bb.s)
+            elif kind == "noconn":
+                P.c = Child(b=h.NoConn(), q=h.NoConn())
+            elif kind == "port-ref":
+                P.bb = Bt()
+                P.c = Child(b=P.bb, q=P.t)
+                P.c2 = Child(b=P.c.b, q=P.c.q)
+            elif kind == "missing-port":
+                P.bb = Bt()
+                P.c = Child(b=P.bb)
+            elif kind == "wrong-width-scalar":
+                P.bb = Bt()
+                P.c = Child(b=P.bb, q=P.w2)
+            else:
+                P.c = Child(b=P.bb, q=P.t)
+            return P
+        return Child, Sc, parent
+
+    def outcome(P):
+        try:
+            pkg = h.to_proto(P)
+        except Exception as e:
+            return ("raised", type(e).__name__)
+        return ("package", pkg.SerializeToString(deterministic=True))
+    w = {"new_parent": repr(case)}
+    try:
+        Child, Sc, parent = build()
+        fresh = outcome(parent())
+        Child, Sc, parent = build()
+        for c in (Child, Sc):
+            if hist == "elaborate":
+                h.elaborate(c)
+            elif hist == "to_proto":
+                h.to_proto(c)
+            elif hist == "netlist":
+                h.netlist(c, io.StringIO(), fmt="spice")
+            elif hist == "twice":
+                h.elaborate(c)
+                h.to_proto(c)
+        if hist == "in-list":
+            h.elaborate([Sc, Child])
+        if hist == "below-other-parent":
+            O = h.Module(name="NPOther")
+            O.c = Child(b=h.NoConn(), q=h.NoConn())
+            O.sc = Sc(s=h.NoConn())
+            h.to_proto(O)
+        got = outcome(parent())
+    except Exception as e:
+        return (f"new-parent.raises.{type(e).__name__}", f"{case!r}: {type(e).__name__}: {str(e)[-160:]}", w)
+    if got != fresh:
+        short = lambda o: o if o[0] == "raised" else ("package", f"{len(o[1])} bytes")
+        return ("new-parent.differs", f"new parent `{kind}` after the child went through `{hist}` gives {short(got)}, "
+                                      f"without history {short(fresh)}", w)
+    return None
+
+
 def check_misc(case, refs):
     try:
         return _check_misc(case, refs)
@@ -399,6 +536,13 @@ def run(ctx):
                     rule="a module holding an instance whose parameter value has no package form, its two parents and itself "
                          "exported in every order (with repeats): each export raises as it does without history",
                     bound="3 kinds of value x 120 orders", key_of=repr)
+    ctx.run_bounded("new-parents-over-used-children", [(k, hh) for k in PARENT_KINDS for hh in CHILD_HISTORIES], check_new_parent,
+                    rule="17 new parents (valid: same / equal bundle type, anonymous bundle, sub-bundle reference, no-connect, "
+                         "port reference; invalid: a bundle type with an extra or missing signal / extra sub-bundle / wider "
+                         "member, anonymous bundle with an extra or missing member, scalar for bundle and back, missing port, "
+                         "wrong width) over a child with a bundle-valued port x 6 earlier uses of the child: outcome (package "
+                         "bytes or exception type) == the outcome without history",
+                    bound="17 x 6", key_of=repr)
     ctx.assumptions.append("id-keyed caches (flatten_bundles.THE_CACHE) are not under a proved contract: address reuse "
                            "is only exercised by the bounded create/delete cycles")
     return INFO
@@ -407,6 +551,10 @@ def run(ctx):
 def replay(payload):
     import hdl21 as h
     inp = payload.get("input") or {}
+    if "new_parent" in inp:
+        r = check_new_parent(eval(inp["new_parent"]))
+        print("replay:", r)
+        return 1 if r else 0
     if inp.get("design") == "failing-export":
         r = check_failing_exports(inp["history"])
         print("replay:", r)
